@@ -1,3 +1,5 @@
+import RosuModel.Gen.PerfSkeleton
+
 /-
 Model of `MapOrAttrs` (src/util/map_or_attrs.rs) and of the `generate_state` / `calculate`
 skeleton shared by the four mode performance builders
@@ -41,5 +43,108 @@ def calculate (diff : D → Map → Attrs) (gen : Attrs → D → X → St) (ppC
     | .attrs a => a
     | .map m => diff b'.difficulty m
   ppCalc a b'.difficulty st
+
+/-! ## The same skeleton as data
+
+`Gen/PerfSkeleton.lean` holds the skeleton of the four concrete `generate_state` / `calculate`
+functions as extracted from the source text on every run.  Below is the skeleton the two model
+functions above were transcribed from; `Props/C04.lean` proves that every mode's extracted skeleton
+conforms to it.  Reading guide (model function ↔ skeleton statement):
+
+* `match b.src with | .map m => let a := diff b.difficulty m; (…, {b with src := .attrs a})`
+  ↔ arm `MapOrAttrs::Map(ref map)`: `let v0 = self.difficulty.calculate_for_mode::<MODE>(map)?`
+  (the builder's own `Difficulty`, the map held by the builder) then
+  `self.map_or_attrs.insert_attrs(v0)` (local names are canonicalised; stores `Attrs(attrs)` and evaluates to a reference to it);
+* `| .attrs a => (gen a …, b)` ↔ arm `MapOrAttrs::Attrs(ref attrs)`: `attrs`;
+* `gen a b.difficulty b.spec` ↔ `.opaque` reading at most `attrs`, `self.difficulty` and the score
+  fields (`self.spec`) — in particular not `self.map_or_attrs`;
+* `calculate`: `let (st, b') := generateState …` ↔ `let state = self.generate_state()?`;
+  the second `match` ↔ `let attrs = match self.map_or_attrs { Attrs(attrs) => attrs, Map(ref map) =>
+  self.difficulty.calculate_for_mode::<MODE>(map)? }`; `ppCalc a b'.difficulty st` ↔ the tail
+  constructing `<Mode>PerformanceCalculator::new(attrs, …)` once, reading at most `attrs`, `state`
+  and `self.difficulty`, and returning `Ok(calculator.calculate())`. -/
+
+open Rosu.Gen.PerfSkeleton
+
+def generateStateSkeleton : List Stmt :=
+  [.receiver "&mut self",
+   .letMatch "attrs" "self.map_or_attrs"
+     [("MapOrAttrs::Map(ref map)",
+        ["let v0=self.difficulty.calculate_for_mode::<MODE>(map)?", "self.map_or_attrs.insert_attrs(v0)"]),
+      ("MapOrAttrs::Attrs(ref attrs)", ["attrs"])],
+   .opaque ["attrs", "self.difficulty", "self.spec"]]
+
+def calculateSkeleton : List Stmt :=
+  [.receiver "mut self",
+   .letExpr "state" "self.generate_state()?",
+   .letMatch "attrs" "self.map_or_attrs"
+     [("MapOrAttrs::Attrs(attrs)", ["attrs"]),
+      ("MapOrAttrs::Map(ref map)", ["self.difficulty.calculate_for_mode::<MODE>(map)?"])],
+   .retCalc "MODEPerformanceCalculator::new" "attrs" ["attrs", "self.difficulty", "state"]]
+
+/-- A statement extracted from the code conforms to a statement of the model skeleton: equal, except
+that collapsed float-level code may read *less* than the model's opaque function is given (but the
+calculator must receive both the attributes and the state). -/
+def stmtConforms : Stmt → Stmt → Bool
+  | .opaque r, .opaque allowed => r.all (allowed.contains ·)
+  | .retCalc c a r, .retCalc c' a' allowed =>
+      c == c' && a == a' && r.all (allowed.contains ·) && r.contains "attrs" && r.contains "state"
+  | .unknown _, _ => false
+  | s, t => s == t
+
+def conformsAll : List Stmt → List Stmt → Bool
+  | [], [] => true
+  | s :: ss, t :: ts => stmtConforms s t && conformsAll ss ts
+  | _, _ => false
+
+/-- `MapOrAttrs::insert_attrs`: overwrite with `Attrs(attrs)`, hand back a reference to the stored value. -/
+def insertAttrsModel : List String :=
+  ["*self=Self::Attrs(attrs)", "let Self::Attrs(ref mut attrs)=self else{unreachable!()}", "attrs"]
+
+/-- `impl From<…> for MapOrAttrs`: a map becomes `Map`, difficulty attributes become `Attrs`,
+performance attributes contribute their embedded difficulty attributes. -/
+def fromModel : List (String × String) :=
+  [("&'map Beatmap", "Self::Map(Cow::Borrowed(map))"), ("Beatmap", "Self::Map(Cow::Owned(map))"),
+   ("crate::$module::$diff", "Self::Attrs(attrs)"), ("crate::$module::$perf", "Self::Attrs(attrs.difficulty)")]
+
+/-! ## Constructors: wrapping only
+
+How a builder comes into being (`Performance::new`, `<Mode>Performance::{new, try_new, from}`,
+`IntoPerformance` / `IntoModePerformance`, `from_map_or_attrs`): the model's `PB.mk (.map m) d₀ x₀` /
+`PB.mk (.attrs a) d₀ x₀` with default settings `d₀` and an empty score specification `x₀` — the
+argument is wrapped, nothing is computed, converted or consulted. -/
+
+/-- The one statement each `into_performance` consists of, per (trait, implementing type). -/
+def intoImplsModel : List (String × String × List String) :=
+  let viaMode := "<mode!()as IGameMode>::Performance::from_map_or_attrs(self.into())"
+  let wrapMode := "Performance::$mode(<Self as IntoModePerformance<'_,mode!()>>::into_performance(self))"
+  let sig := "fn into_performance(self)"
+  let table (scrut pat arg : String) : String :=
+    "match " ++ scrut ++ "{" ++ ",".intercalate (["Osu", "Taiko", "Catch", "Mania"].map fun m =>
+      pat ++ m ++ (if pat == "Self::" then "(attrs)" else "") ++ "=>Performance::" ++ m ++ "(" ++ arg ++ ")") ++ "}"
+  [("IntoModePerformance", "crate::$module::$diff", [sig, viaMode]),
+   ("IntoModePerformance", "crate::$module::$perf",
+      [sig, "<mode!()as IGameMode>::Performance::from_map_or_attrs(self.difficulty.into())"]),
+   ("IntoPerformance", "crate::$module::$diff", [sig, wrapMode]),
+   ("IntoPerformance", "crate::$module::$perf", [sig, wrapMode]),
+   ("IntoModePerformance", "&'_ Beatmap", [sig, viaMode]),
+   ("IntoModePerformance", "Beatmap", [sig, viaMode]),
+   ("IntoPerformance", "Beatmap", [sig, table "self.mode" "GameMode::" "self.into()"]),
+   ("IntoPerformance", "&'_ Beatmap", [sig, table "self.mode" "GameMode::" "self.into()"]),
+   ("IntoPerformance", "DifficultyAttributes", [sig, table "self" "Self::" "attrs.into()"]),
+   ("IntoPerformance", "PerformanceAttributes", [sig, table "self" "Self::" "attrs.difficulty.into()"])]
+
+/-- `new`, `try_new`, `From<T>::from` of a mode builder. -/
+def builderConstructorsModel : List (String × List String) :=
+  [("new", ["map_or_attrs.into_performance()"]),
+   ("try_new", ["if let Performance::MODE(calc)=map_or_attrs.into_performance(){Some(calc)}else{None}"]),
+   ("From<T>::from", ["into.into_performance()"])]
+
+/-- `from_map_or_attrs`: the source as given, default settings, nothing provided. -/
+def freshBuilderField (p : String × String) : Bool :=
+  if p.1 == "map_or_attrs" then p.2 == "map_or_attrs"
+  else if p.1 == "difficulty" then p.2 == "Difficulty::new()"
+  else if p.1 == "hitresult_priority" then p.2 == "HitResultPriority::DEFAULT"
+  else p.2 == "None"
 
 end Rosu.MapOrAttrs
